@@ -1,2 +1,4 @@
 pub mod alpha;
 pub mod docs;
+pub mod lex;
+pub mod sentences;
